@@ -50,7 +50,7 @@ LEVEL_NOTE = "Trusted: token attribution through the launched invocations' argum
 MINIMIZE = "schedule"
 RULE = (
     "events: 1-4 pending occurrences x logic in {single, OR, AND}; cron: expression from the generated family x 20-60 polls with "
-    "regular / jittered / bursty / gapped spacing; concurrent: two loops / pollers + reporter under rand / pct / rr. Non-trivial = >= 2 "
+    "regular / jittered / bursty / gapped spacing; concurrent: two loops / pollers + a reporter (0-6 live reports spread over the loops or released inside a store method) under rand / pct / rr. Non-trivial = >= 2 "
     "occurrences were pending together (events) / at least one poll fell inside and one outside a window (cron) / a context switch landed "
     "inside a loop iteration (conc); distinct = hash of history or switch sites."
 )
